@@ -645,10 +645,26 @@ func (cmd *Command) printDiagnostics(cs []*lint.Analyzer, diagnostics []diagnost
 			if di.Message != dj.Message {
 				return di.Message < dj.Message
 			}
-			if di.BuildName != dj.BuildName {
-				return di.BuildName < dj.BuildName
+			// Order by everything that identifies a diagnostic before
+			// ordering by build name, so that the reports of one
+			// diagnostic under several builds are adjacent and get merged
+			// below.
+			if di.Category != dj.Category {
+				return di.Category < dj.Category
 			}
-			return di.Category < dj.Category
+			if ei, ej := di.End, dj.End; ei != ej {
+				if ei.Filename != ej.Filename {
+					return ei.Filename < ej.Filename
+				}
+				if ei.Line != ej.Line {
+					return ei.Line < ej.Line
+				}
+				if ei.Column != ej.Column {
+					return ei.Column < ej.Column
+				}
+				return ei.Offset < ej.Offset
+			}
+			return di.BuildName < dj.BuildName
 		})
 
 		filtered := []diagnostic{
